@@ -22,6 +22,8 @@ func init() {
 	vrt.Register("C06_short_circuit", ShortCircuit)
 	vrt.Register("C06_end_to_end", EndToEnd)
 	vrt.Register("C06_string_chains", StringChains)
+	vrt.Register("C06_string_plus_number", StringPlusNumber)
+	vrt.Register("C06_literals", Literals)
 }
 
 var binops = []string{"+", "-", "*", "/", "<", "<=", ">", ">=", "==", "!=", "&&", "||", "~="}
@@ -597,4 +599,100 @@ func StringChains() {
 	vrt.Assert(err == nil, "a chain starting with a string renders: "+expr)
 	vrt.Assert(got == want, "string + x concatenates the printed form of x, left-associatively: "+expr)
 	vrt.Cover("done")
+}
+
+// string + x concatenates the printed form of x, for every numeric kind and for
+// floats whose printed form switches notation (the printed form is what <%= x %> prints)
+var numbers = []interface{}{
+	0.0, 1.5, -2.25, 3.0, 1e6, 999999.5, 1e20, 1e21, 1e-4, 1e-5, 2.5e-7, 123456789.0, float32(0.1), float32(1e7),
+	int8(-7), uint8(200), int64(-1 << 40), uint(7), uint64(1 << 63),
+}
+
+func StringPlusNumber() {
+	a := vrt.Bytes(vrt.IntRange(0, 1))
+	x := numbers[vrt.Choice(len(numbers))]
+	ctx := plush.NewContext()
+	ctx.Set("a", a)
+	ctx.Set("x", x)
+	printed, err := render("x", ctx)
+	vrt.Assert(err == nil, "a number prints")
+	got, err := render("a + x", ctx)
+	vrt.Assert(err == nil, "string + number renders")
+	vrt.Assert(got == htmlEsc(a)+printed, "string + x concatenates the printed form of x")
+	// and comparisons of a string with that printed form are those of the strings
+	ctx.Set("p", printed)
+	got, err = render("(\"\" + x) == p", ctx)
+	vrt.Assert(err == nil, "comparison renders")
+	vrt.Assert(got == "true", "\"\" + x equals the printed form of x")
+	vrt.Cover("done")
+}
+
+// number literals denote their decimal value: leading zeros do not change the base
+func Literals() {
+	type lit struct {
+		text string
+		val  int
+	}
+	lits := []lit{{"0", 0}, {"7", 7}, {"10", 10}, {"010", 10}, {"007", 7}, {"08", 8}, {"09", 9}, {"00", 0}, {"0100", 100}, {"123456789", 123456789}}
+	l := lits[vrt.Choice(len(lits))]
+	n := vrt.Int()
+	ctx := plush.NewContext()
+	ctx.Set("n", n)
+	forms := []string{"L", "L + n", "n - L", "L == n", "L < n", "\"s\" + L", "[L][0]", "0 - L"}
+	f := forms[vrt.Choice(len(forms))]
+	got, err := render(subst(f, l.text), ctx)
+	vrt.Assert(err == nil, "an expression over a decimal literal renders: "+f+" with "+l.text)
+	var want string
+	switch f {
+	case "L", "[L][0]":
+		want = strconv.Itoa(l.val)
+	case "L + n":
+		want = strconv.Itoa(l.val + n)
+	case "n - L":
+		want = strconv.Itoa(n - l.val)
+	case "L == n":
+		want = b2s(l.val == n)
+	case "L < n":
+		want = b2s(l.val < n)
+	case "0 - L":
+		want = strconv.Itoa(-l.val)
+	default:
+		want = "s" + strconv.Itoa(l.val)
+	}
+	vrt.Assert(got == want, "a decimal literal denotes its decimal value: "+f+" with "+l.text)
+	// symbolic digits: every literal of up to three digits
+	k := vrt.IntRange(1, 3)
+	ds := vrt.Bytes(k)
+	v := 0
+	for i := 0; i < len(ds); i++ {
+		vrt.Assume(ds[i] >= '0')
+		vrt.Assume(ds[i] <= '9')
+		v = v*10 + int(ds[i]-'0')
+	}
+	got, err = render(ds+" + n", ctx)
+	vrt.Assert(err == nil, "digits + n renders")
+	vrt.Assert(got == strconv.Itoa(v+n), "a literal of decimal digits denotes its decimal value")
+	// float literals
+	type flit struct {
+		text string
+		val  float64
+	}
+	flits := []flit{{"1.5", 1.5}, {"0.25", 0.25}, {"010.5", 10.5}, {"2.0", 2}, {"100.125", 100.125}}
+	fl := flits[vrt.Choice(len(flits))]
+	got, err = render(fl.text+" + 0.5", ctx)
+	vrt.Assert(err == nil, "float literal renders")
+	vrt.Assert(got == fmt.Sprint(fl.val+0.5), "a float literal denotes its decimal value")
+	vrt.Cover("done")
+}
+
+func subst(f, l string) string {
+	out := ""
+	for i := 0; i < len(f); i++ {
+		if f[i] == 'L' {
+			out += l
+		} else {
+			out += string(f[i : i+1])
+		}
+	}
+	return out
 }
